@@ -1,11 +1,14 @@
 #!/venv/bin/python
-"""alpha_tree.py <dir> [noops]: write a rewritten copy of /repo's package to <dir>/unified_planning (development aid):
-renamed + annotated locals; with `noops` additionally a `pass` after every statement."""
+"""alpha_tree.py <dir> [noops|shape]: write a rewritten copy of /repo's package to <dir>/unified_planning (development
+aid): renamed + annotated locals; with `noops` additionally a `pass` after every statement; with `shape` instead the
+logic-shape rewrite (if/else inverted, constant comparisons mirrored)."""
 import os, shutil, sys
 sys.path.insert(0, os.path.dirname(os.path.dirname(os.path.abspath(__file__))))
-from upsa.alpha import alpha_rename, interleave_noops
+from upsa.alpha import alpha_rename, flatten_else, interleave_noops, reshape_logic
 dst = sys.argv[1]
-noops = len(sys.argv) > 2
+noops = len(sys.argv) > 2 and sys.argv[2] == 'noops'
+shape = len(sys.argv) > 2 and sys.argv[2] == 'shape'
+full = len(sys.argv) > 2 and sys.argv[2] == 'full'  # everything the self-test's restyling does
 shutil.rmtree(dst, ignore_errors=True)
 shutil.copytree("/repo/unified_planning", os.path.join(dst, "unified_planning"), ignore=shutil.ignore_patterns("__pycache__", "test"))
 for root, _d, files in os.walk(os.path.join(dst, "unified_planning")):
@@ -15,7 +18,9 @@ for root, _d, files in os.walk(os.path.join(dst, "unified_planning")):
         if f.endswith(".py"):
             p = os.path.join(root, f)
             s = open(p).read()
-            t, _ = alpha_rename(s)
+            t = reshape_logic(s) if shape else alpha_rename(s)[0]
+            if full:
+                t = interleave_noops(flatten_else(reshape_logic(t)))
             if noops:
                 t = interleave_noops(t)
             compile(t, p, "exec")
